@@ -28,6 +28,8 @@ import (
 	"strconv"
 	"strings"
 	"sync"
+	"syscall"
+	"time"
 
 	corev1 "k8s.io/api/core/v1"
 
@@ -468,4 +470,30 @@ func (r *c11Reporter) Report(res *mc.Result, l *mc.Local, key string, mk func() 
 		what, replay := mk()
 		res.Violate(mc.Violation{Key: key, What: what, Replay: replay})
 	}
+}
+
+// c11CPUms: CPU time consumed by this process so far (the machine is shared, wall time says little).
+func c11CPUms() int64 {
+	var ru syscall.Rusage
+	if err := syscall.Getrusage(syscall.RUSAGE_SELF, &ru); err != nil {
+		return 0
+	}
+	return (int64(ru.Utime.Sec)+int64(ru.Stime.Sec))*1000 + (int64(ru.Utime.Usec)+int64(ru.Stime.Usec))/1000
+}
+
+// c11PartEnv hands one part its share of what is left of the unit's time budget (at most twice the fair share, so
+// that small parts leave their time to the large ones and a large part cannot starve the rest). The returned Env
+// is only used to drive the enumeration; parts are emitted through the unit's Env.
+func c11PartEnv(env *mc.Env, remainingParts int) *mc.Env {
+	p := mc.LoadEnv()
+	left := env.Budget - env.Elapsed()
+	if left < 0 {
+		left = 0
+	}
+	share := left
+	if remainingParts > 1 {
+		share = left * 2 / time.Duration(remainingParts)
+	}
+	p.Budget = share
+	return p
 }
